@@ -20,8 +20,8 @@ def callErrToErr : CallErr → Err
   | .typeError => .typeError
 
 mutual
-  def evalVal : Nat → State → Scope → Val → Except Err (State × Val)
-    | 0, _, _, _ => .error (.other "RecursionError")
+  def evalVal : Nat → State → Scope → Val → Except (Err × State) (State × Val)
+    | 0, es, _, _ => .error (.other "RecursionError", es)
     | fuel + 1, es, σ, v =>
       match v with
       | .list xs => match evalVals fuel es σ xs with
@@ -38,11 +38,11 @@ mutual
       | .macro name => callCfg fuel es State.macroSel (if name.isEmpty then [] else name.splitOn "/") [] []
       | .const name => match es.constants.get? name with
           | some c => .ok (es, c)
-          | none => .error .keyError
-      | .unknownRef _ _ => .error .valueError
+          | none => .error (.keyError, es)
+      | .unknownRef _ _ => .error (.valueError, es)
       | v => .ok (es, v)
-  def evalVals : Nat → State → Scope → List Val → Except Err (State × List Val)
-    | 0, _, _, _ => .error (.other "RecursionError")
+  def evalVals : Nat → State → Scope → List Val → Except (Err × State) (State × List Val)
+    | 0, es, _, _ => .error (.other "RecursionError", es)
     | _ + 1, es, _, [] => .ok (es, [])
     | fuel + 1, es, σ, x :: xs =>
       match evalVal fuel es σ x with
@@ -50,8 +50,8 @@ mutual
       | .ok (es1, y) => match evalVals fuel es1 σ xs with
         | .error e => .error e
         | .ok (es2, ys) => .ok (es2, y :: ys)
-  def evalDict : Nat → State → Scope → List (Val × Val) → Except Err (State × List (Val × Val))
-    | 0, _, _, _ => .error (.other "RecursionError")
+  def evalDict : Nat → State → Scope → List (Val × Val) → Except (Err × State) (State × List (Val × Val))
+    | 0, es, _, _ => .error (.other "RecursionError", es)
     | _ + 1, es, _, [] => .ok (es, [])
     | fuel + 1, es, σ, (k, v) :: rest =>
       -- `y[deepcopy(key)] = deepcopy(value)`: Python evaluates the right-hand side first
@@ -62,8 +62,8 @@ mutual
         | .ok (es2, k') => match evalDict fuel es2 σ rest with
           | .error e => .error e
           | .ok (es3, rest') => .ok (es3, (k', v') :: rest')
-  def evalKws : Nat → State → Scope → AList String Val → Except Err (State × AList String Val)
-    | 0, _, _, _ => .error (.other "RecursionError")
+  def evalKws : Nat → State → Scope → AList String Val → Except (Err × State) (State × AList String Val)
+    | 0, es, _, _ => .error (.other "RecursionError", es)
     | _ + 1, es, _, [] => .ok (es, [])
     | fuel + 1, es, σ, (k, v) :: rest =>
       match evalVal fuel es σ v with
@@ -73,14 +73,14 @@ mutual
         | .ok (es2, rest') => .ok (es2, (k, v') :: rest')
   /-- `gin_wrapper` with real evaluation; the wrapped function is a probe (returns `result sel n`),
       `gin.macro` (returns its evaluated value) or `gin.constant`. -/
-  def callCfg : Nat → State → Sel → Scope → List Val → AList String Val → Except Err (State × Val)
-    | 0, _, _, _, _, _ => .error (.other "RecursionError")
+  def callCfg : Nat → State → Sel → Scope → List Val → AList String Val → Except (Err × State) (State × Val)
+    | 0, es, _, _, _, _ => .error (.other "RecursionError", es)
     | fuel + 1, es, full, σ, args, kwargs =>
       match es.registry.get? full with
-      | none => .error .valueError
+      | none => .error (.valueError, es)
       | some e =>
         match phaseA e.cfg es.config σ args kwargs with
-        | .error err => .error (callErrToErr err)
+        | .error err => .error (callErrToErr err, es)
         | .ok a =>
           let op := AList.update (es.operative.params σ full) a.operative
           let es := { es with operative := AList.set (σ, full) op es.operative }
@@ -88,21 +88,21 @@ mutual
           | .error err => .error err
           | .ok (es1, evaluated) =>
             match phaseC e.cfg a args kwargs evaluated with
-            | .error err => .error (callErrToErr err)
+            | .error err => .error (callErrToErr err, es1)
             | .ok d =>
               match pyBind e.cfg.sig d with
-              | .error err => .error (callErrToErr err)
+              | .error err => .error (callErrToErr err, es1)
               | .ok r =>
                 if full == State.macroSel then
                   match AList.lookup "value" r.params with
                   | some v => .ok (es1, v)
-                  | none => .error .typeError
+                  | none => .error (.typeError, es1)
                 else if full == State.constSel then
                   match es1.constants.get? [".".intercalate σ] with
                   | some c => .ok (es1, c)
                   | none => match es1.constants.get? σ with
                     | some c => .ok (es1, c)
-                    | none => .error .keyError
+                    | none => .error (.keyError, es1)
                 else
                   let n := (AList.lookup full es1.calls).getD 0
                   .ok ({ es1 with calls := AList.set full (n + 1) es1.calls,
